@@ -1180,6 +1180,10 @@ def judge_C10(W, ex):
                 why.append('worker-exit')
             bad('C10.q', 'slots-not-all-free-at-rest:%s' % ('+'.join(why) or 'plain'),
                 'all jobs resolved, semaphore value %d, bound %d' % (chk['value'], chk['bound']))
+        if chk.get('processes') is not None and chk['bound'] != chk['processes']:
+            # one slot per worker of the configured size (as adjusted by grow and the shrinks that took effect)
+            bad('C10.q', 'bound-differs-from-pool-size', 'at rest the semaphore bound is %d, the pool size %d'
+                % (chk['bound'], chk['processes']))
 
 
 # ---------------------------------------------------------------------- C11
@@ -1298,13 +1302,15 @@ def judge_C11b(W, ex):
             if e[3] in models:
                 models[e[3]]['count'] = 0
             continue
-        if e[2] == 'accept-consumed':
-            # "the count starts afresh when ... a job has been accepted": the reset must have happened by now
-            # (the limiter the pool was configured with is the first one it consults)
-            if not reset_seen:
-                bad('C11.r', 'accept-did-not-reset-count', 'the accept message of job %r was consumed (step %d) '
-                    'without the restart count being zeroed' % (e[3], e[0]))
+        if e[2] == 'ack-begin':
             reset_seen = False
+            continue
+        if e[2] == 'ack-end':
+            # "the count starts afresh when ... a job has been accepted": while the parent handled this accept
+            # message the count must have been zeroed - whether or not the job is still wanted by anybody
+            if not reset_seen:
+                bad('C11.r', 'accept-did-not-reset-count', 'the accept message of job id %r part %r was handled '
+                    '(step %d) without the restart count being zeroed' % (e[3], e[4], e[0]))
             continue
         if e[2] != 'rs-step':
             continue
@@ -1349,7 +1355,16 @@ def judge_C11b(W, ex):
             cur['steps'] += 1
             if e[9] == 'refused':
                 cur['refused'] = True
+                # "raises RestartFreqExceeded instead of forking": the refused replacement was not started either
+                if cur.get('starts', 0) > cur.get('admitted', 0) + cur['clean'] + cur.get('extra', 0) and \
+                        not W.resize_seen():
+                    bad('C11.r', 'forked-before-admission', 'in one pass %d workers were started with %d restarts '
+                        'admitted (%d clean exits) when the limiter refused' % (cur['starts'], cur.get('admitted', 0),
+                                                                              cur['clean']))
+            else:
+                cur['admitted'] = cur.get('admitted', 0) + 1
         elif e[2] == 'worker-start':
+            cur['starts'] = cur.get('starts', 0) + 1
             if cur['refused']:
                 bad('C11.r', 'forked-after-refusal', 'a worker was started after RestartFreqExceeded in the same pass')
         elif e[2] == 'sleep':
